@@ -164,6 +164,11 @@ func TestLifetime(t *testing.T) {
 		{Op{Kind: List, Now: 15 * sec}, keys(), ""},
 		{sg(15 * sec), fail, ""},
 		{Op{Kind: List, Now: 15 * sec}, keys(A, "a"), "list-stale-key"}})
+	// a refusal for another permitted reason at the boundary instant does not mean "reaped"
+	run(t, "at-refused-flags", GoKeyring, []step{{add, ok, ""},
+		{Op{Kind: Sign, Blob: A, KeyAlgo: "ssh-ed25519", Flags: 6, Now: 15 * sec}, fail, ""},
+		{sg(15 * sec), sig("ssh-ed25519", true), ""},
+		{Op{Kind: List, Now: 15 * sec}, keys(A, "a"), ""}})
 	run(t, "after", GoKeyring, []step{{add, ok, ""},
 		{Op{Kind: List, Now: 15*sec + 1}, keys(A, "a"), "list-expired-key"}})
 	run(t, "after-sign", GoKeyring, []step{{add, ok, ""},
